@@ -82,3 +82,27 @@ Theorem C18_batchrelease_deletion_not_blocked : forall sp st w r,
   BRExec.reconcile sp st w = Some r -> BRExec.r_finalizer r = false.
 Proof. exact Proofs.BRExec.br_deletion_not_blocked. Qed.
 Print Assumptions C18_batchrelease_deletion_not_blocked.
+
+(* ---------- the Rollout controller's progressing finalizer on a TrafficRouting object (Model/TRFin.v) ---------- *)
+From RV Require Model.TRFin Proofs.TRFin.
+(* not blocked for ever: when the Rollout is done with the object its finalizer goes, deleting or not, whatever the phase; a
+   deleting object that held nothing else then disappears *)
+Theorem C18_progressing_finalizer_removed_when_the_rollout_is_done : forall t e t',
+  TRFin.t2_exists t = true -> TRFin.finalize_tr false t = (e, t') -> e = false /\ TRFin.t2_mine t' = false.
+Proof. exact Proofs.TRFin.finalize_removes_my_finalizer. Qed.
+Print Assumptions C18_progressing_finalizer_removed_when_the_rollout_is_done.
+Theorem C18_progressing_finalizer_lets_a_deleting_object_go : forall t e t',
+  TRFin.t2_exists t = true -> TRFin.t2_deleting t = true -> TRFin.t2_others t = false -> TRFin.t2_mine t = true ->
+  TRFin.finalize_tr false t = (e, t') -> TRFin.t2_exists t' = false.
+Proof. exact Proofs.TRFin.finalize_lets_a_deleting_object_go. Qed.
+Print Assumptions C18_progressing_finalizer_lets_a_deleting_object_go.
+(* stays while needed: the object counts as usable only with the finalizer on it, and the finalizer is never put on an object
+   that is already finalizing / terminating *)
+Theorem C18_progressing_finalizer_guards_the_object_in_use : forall f t r t',
+  TRFin.handle_tr f t = (r, t') -> r = TRFin.T2Ready -> TRFin.t2_mine t' = true /\ t' = t.
+Proof. exact Proofs.TRFin.handle_ready_means_guarded. Qed.
+Print Assumptions C18_progressing_finalizer_guards_the_object_in_use.
+Theorem C18_progressing_finalizer_not_put_on_an_object_on_its_way_out : forall f t r t',
+  TRFin.handle_tr f t = (r, t') -> TRFin.t2_mine t = false -> TRFin.t2_phase t <> TRFin.TOtherPhase -> TRFin.t2_mine t' = false.
+Proof. exact Proofs.TRFin.handle_never_guards_an_object_on_its_way_out. Qed.
+Print Assumptions C18_progressing_finalizer_not_put_on_an_object_on_its_way_out.
